@@ -611,3 +611,67 @@ Section Env.
     destruct (Hall _ _ Hin (Hmax _ _ Hs Hne)) as [_ Hc]. congruence.
   Qed.
 End Env.
+
+(* ---- E. a location and the section named after it ------------------------------------ *)
+(* LocationStack(location) stores into the section NAMED [location]; that section
+   is found again only if the name, read as a glob, matches the location *)
+Theorem self_match_plain : forall loc,
+  Forall (fun s => plain s = true) (parts loc) ->
+  sec_match (parts loc) (parts loc) = true /\ extra_of (parts loc) (parts loc) = [].
+Proof.
+  intros loc Hp. split.
+  - apply sec_match_plain; [exact Hp|]. exists []. symmetry; apply app_nil_r.
+  - unfold extra_of. rewrite skipn_all. reflexivity.
+Qed.
+
+Theorem self_match_refuted :
+  exists loc, sec_match (parts loc) (parts loc) = false /\
+              stack_get simple_join simple_basename
+                        (mk_store None [(loc, [(lit "foo", lit "x")])]) loc None (lit "foo") = None.
+Proof. exists (lit "/a/[!a]"). vm_compute. split; reflexivity. Qed.
+
+Example self_match_example :
+  let loc := lit "/home/me/proj" in
+  forallb plain (parts loc) = true /\
+  stack_get simple_join simple_basename
+            (mk_store None [(loc, [(lit "foo", lit "x")])]) loc None (lit "foo") = Some (lit "x").
+Proof. vm_compute. split; reflexivity. Qed.
+
+(* the documented example: /a, /a/b, /a/* at location /a/b/c -- "/a/b" and "/a/*"
+   tie on the number of parts; the greater id ("/a/b" > "/a/*") comes first *)
+Example order_example :
+  map (fun s => ls_id s)
+      (get_sections simple_join simple_basename
+         (mk_store (Some [(lit "foo", lit "0")])
+                   [(lit "/a", [(lit "foo", lit "1")]); (lit "/a/b", [(lit "foo", lit "2")]);
+                    (lit "/a/*", [(lit "foo", lit "3")]); (lit "/b", [(lit "foo", lit "4")])])
+         (lit "/a/b/c"))
+  = [lit "/a/b"; lit "/a/*"; lit "/a"; []].
+Proof. vm_compute. reflexivity. Qed.
+
+Example ignore_parents_example :
+  let st := mk_store (Some [(lit "foo", lit "0")])
+                     [(lit "/a", [(lit "foo", lit "1")]);
+                      (lit "/a/b", [(lit "ignore_parents", lit "true"); (lit "foo", lit "2")]);
+                      (lit "/a/b/c", [(lit "bar", lit "3")])] in
+  map (fun s => ls_id s) (get_sections simple_join simple_basename st (lit "/a/b/c/d")) = [lit "/a/b/c"]
+  /\ resolve_loc simple_join simple_basename st (lit "/a/b/c/d") (lit "foo") = None
+  /\ resolve_loc simple_join simple_basename st (lit "/a/b/c/d") (lit "bar") = Some (lit "3").
+Proof. vm_compute. repeat split; reflexivity. Qed.
+
+Example appendpath_example :
+  let st := mk_store None
+                     [(lit "/a", [(lit "foo", lit "base"); (lit "foo:policy", lit "appendpath");
+                                  (lit "bar", lit "{relpath}|{basename}|{branchname}")])] in
+  resolve_loc simple_join simple_basename st (lit "/a/b/c") (lit "foo") = Some (lit "base/b/c") /\
+  resolve_loc simple_join simple_basename st (lit "/a/b/c") (lit "bar") = Some (lit "b/c|c|c").
+Proof. vm_compute. split; reflexivity. Qed.
+
+(* StartingPathMatcher is NOT a component-wise matcher: "/a" selects "/ab" *)
+Theorem spm_not_componentwise :
+  exists st loc id extra,
+    In (id, extra) (spm_sections st loc) /\ sec_match (parts loc) (parts id) = false.
+Proof.
+  exists (mk_store None [(lit "/a", [])]), (lit "/ab"), (lit "/a"), [].
+  vm_compute. split; [left; reflexivity|reflexivity].
+Qed.
